@@ -705,7 +705,7 @@ def gen_type(rng, depth, allow_optional=True):
         return rng.choice(SCALARS + ["dec", "datetime", "datetime", "time", "delta", "date"])
     k = rng.choice(["list", "list", "set", "tuple", "tuplevar", "dict", "dict", "data", "optional"])
     if k == "optional":
-        if not allow_optional:
+        if not allow_optional or rng.random() < 0.4:
             return gen_type(rng, depth - 1, False)
         inner = gen_type(rng, depth - 1, False)
         return inner if inner == "none" else {"optional": inner}
@@ -910,9 +910,9 @@ def py_eq_key(t, x):
     if tag == "bool":
         return ("num", Decimal(int(e)))
     if tag == "datetime" and e[7] is not None:
-        w = World()
-        dt = w.val("datetime", x)
-        return ("dt", dt.astimezone(timezone.utc).isoformat())
+        # aware datetimes compare by instant
+        inst = ((date(e[0], e[1], e[2]).toordinal() * 24 + e[3]) * 60 + e[4]) * 60 + e[5]
+        return ("dt", inst * 1000000 + e[6] - int(e[7]))
     if tag == "time" and e[4] is not None:
         return ("t", _key(e))
     if tag == "tuple":
@@ -1215,7 +1215,7 @@ class C14(Check):
     driver = "C14"
     impl = "harness.c14:impl"
     case_timeout = 20.0
-    budget = {"quick": 2500, "thorough": 40000}
+    budget = {"quick": 2500, "thorough": 150000}
     search_budget = {"quick": 3000, "thorough": 20000}
     rule = ("seeded data-class declarations (1-3 plain required fields, field types over int float str bool None bytes Decimal date "
             "datetime time timedelta UUID Enum (plain / int / str mixin) List Set Tuple[...] Tuple[T, ...] Dict[str|int, T] nested "
@@ -1290,7 +1290,9 @@ class C14(Check):
         if mo["parse"] == "ok":
             if canon_val(mo["back"]) != io.get("back"):
                 return "parsed-back value differs"
-            if bool(mo["eq"]) != bool(io.get("equal")):
+            # Python's == is coarser than the model's structural equality only outside the domain (aware times
+            # compare modulo the sub-second part of the offset); inside the domain the verdicts must coincide
+            if (bool(mo["eq"]) and not io.get("equal")) or (dom and bool(mo["eq"]) != bool(io.get("equal"))):
                 return f"equality verdict: impl={io.get('equal')} model={mo['eq']}"
         return None
 
@@ -1363,7 +1365,7 @@ class C14(Check):
                 bad.append("MAX_SAFE_NUMBER is not in the Lean model")
         except Exception as e:
             bad.append(f"model table check failed: {e}")
-        n = 400 if tier == "quick" else 6000
+        n = 400 if tier == "quick" else 20000
         from .common import env_seed
         laws = law_audit(env_seed(), n)
         self._law_cases = n
